@@ -278,10 +278,28 @@ def install_monitors():
         setattr(mod, kname, wrap())
 
 
+OPS = [0]
+
+
+def install_op_counter():
+    """Scaling probe only: count the applications of scipy LinearOperators (matvec / rmatvec / matmat / rmatmat), i.e. the
+    operator applications ARPACK asks for — the eigen-solver based entries are judged per application."""
+    import scipy.sparse.linalg as sl
+    for nm in ('matvec', 'rmatvec', 'matmat', 'rmatmat'):
+        orig = getattr(sl.LinearOperator, nm)
+
+        def w(self, x, _o=orig):
+            OPS[0] += 1
+            return _o(self, x)
+        setattr(sl.LinearOperator, nm, w)
+
+
 def main():
-    monitor = len(sys.argv) > 2 and sys.argv[2] == 'monitor'
+    monitor = 'monitor' in sys.argv[2:]
     if monitor:
         install_monitors()
+    if 'ops' in sys.argv[2:]:
+        install_op_counter()
     out = sys.stdout
     out.write(json.dumps({'ready': True}) + '\n')
     out.flush()
@@ -292,6 +310,7 @@ def main():
         t = json.loads(line)
         del UNRAISABLE[:]
         del CALLS[:]
+        OPS[0] = 0
         np.random.seed(0)
         ans = {'id': t['id']}
         t0 = time.time()
@@ -314,6 +333,7 @@ def main():
             ans['msg'] = str(e)[:200]
         ans['wall'] = round(time.time() - t0, 3)
         ans['cpu'] = round(time.process_time() - c0, 3)
+        ans['ops'] = OPS[0]
         text = ' '.join(UNRAISABLE) + ' ' + ans.get('msg', '')
         ans['oob'] = ('Out of bounds on buffer access' in text) or ('out of bounds' in ' '.join(UNRAISABLE).lower())
         if UNRAISABLE:
